@@ -1,4 +1,5 @@
 import astload
+import protocol
 from core import Fn, Target
 from cxx2c import unwrap, Unsupported, qual
 
@@ -93,6 +94,17 @@ def build(tier):
     a3 = lambda: fn('bundle_append3', 'append', select=nparams(3))
     mv = lambda: fn('bundle_moveto', 'moveto')
     acc = ['bundle_capacity', 'bundle_size']
+    # constructor / stopping tests: the state is seen as (point, gradient, value); smeared_e() / smeared_s() are ghosts
+    ckw = dict(COMMON)
+    ckw['types'] = TYPES + [(r'^nano::solver_state_t$', 'struct nv_cstate')]
+    ckw['members'] = [(r'^x\|nano::solver_state_t', 'nv_cstate_x'), (r'^gx\|nano::solver_state_t', 'nv_cstate_gx'), (r'^fx\|nano::solver_state_t', 'nv_cstate_fx'),
+                      (r'^smeared_e\|', 'nv_smeared_e'), (r'^lpNorm\|', 'nv_smeared_s_norm()')] + COMMON['members']
+    ckw['calls'] = [(r'^ctor\|nano::matrix_t\|void \(long, long\)|^ctor\|.*tensor_vector_storage_t, double, 2.*\|void \(long, long\)', 'nv_mat_make({0}, {1})'),
+                    (r'^ctor\|(nano::vector_t|.*tensor_vector_storage_t, double, 1[^|]*)\|void \(long\)', 'nv_t1d_make({0})'),
+                    (r'^ctor\|.*tensor_c(map|array)_storage_t, double, 1', 'nv_slice_of({&0})'), (r'^sqrt\|', 'nv_usqrt({0})')] + COMMON['calls']
+    ctor = Fn('bundle_ctor', SRC, 'bundle_t', flt='bundle_t::bundle_t', kinds=('CXXConstructorDecl',), **ckw)
+    econv = Fn('bundle_econverged', SRC, 'econverged', flt='bundle_t::econverged', **ckw)
+    sconv = Fn('bundle_sconverged', SRC, 'sconverged', flt='bundle_t::sconverged', **ckw)
     targets = [
         Target('bundle_capacity', [cap()], H), Target('bundle_size', [size()], H),
         Target('bundle_delete_inactive', [di(), size(), cap()], H, replace=acc),
@@ -102,7 +114,9 @@ def build(tier):
         Target('bundle_append4', [a4(), di(), dl(), size(), cap()], H, replace=acc + ['bundle_delete_inactive', 'bundle_delete_largest']),
         Target('bundle_append3', [a3(), a4()], H, replace=['bundle_append4']),
         Target('bundle_moveto', [mv(), a4()], H, replace=['bundle_append4']),
-    ]
+        Target('bundle_ctor', [ctor, a4()], H, replace=['bundle_append4']),
+        Target('bundle_econverged', [econv], H), Target('bundle_sconverged', [sconv], H),
+    ] + protocol.targets(['NV_C03'])
     return {
         'targets': targets, 'vcs': [],
         'decided': ['bundle_t representation invariant 0 < m_size < capacity() after append / moveto (and from m_size >= 0, as the constructor uses append); every index written into m_bundleE / m_bundleS / m_alphas lies in [0, capacity()); delete_largest reads m_alphas inside [0, size()) and a full bundle loses at least `count` entries'],
